@@ -115,6 +115,7 @@ Definition spec (i : input) (o : observed) : bool :=
   match i, o with
   | IDoc r c q probes, ODoc ok iss adv routed tok =>
       ok
+      && String.eqb iss (issuer_of c q)       (* the issuer the strategy derives from THIS request *)
       && spec_eps iss (map (ep_of (c_eps c)) all_epnames) adv routed probes
       && match tok with Some t => String.eqb t iss | None => true end
   | IGrants r c gs, OGrants advertised answers => spec_grants advertised gs answers
